@@ -79,8 +79,16 @@ impl NameRecord {
                 "Unhandled platform/encoding id pair: ({}, {})",
                 self.platform_id, self.encoding_id
             )),
-            Encoding::Utf16Be => (), // lgtm
+            Encoding::Utf16Be => {
+                // the record's length field counts bytes in a u16
+                if self.string().encode_utf16().count() > (u16::MAX / 2) as usize {
+                    ctx.report("string too long: encoded UTF-16 data exceeds 65535 bytes")
+                }
+            }
             Encoding::MacRoman => {
+                if self.string().chars().count() > u16::MAX as usize {
+                    ctx.report("string too long: encoded MacRoman data exceeds 65535 bytes")
+                }
                 for c in self.string().chars() {
                     if MacRomanMapping.encode(c).is_none() {
                         ctx.report(format!(
@@ -323,5 +331,25 @@ mod tests {
         if fail {
             panic!("some comparisons failed");
         }
+    }
+
+    #[test]
+    fn overlong_strings_fail_validation() {
+        // 32768 UTF-16 code units = 65536 bytes: does not fit the u16 length field
+        let too_long = Name::new(vec![make_name_record(3, 1, 0x409, 1, &"a".repeat(32768))]);
+        assert!(crate::dump_table(&too_long).is_err());
+        let astral = Name::new(vec![make_name_record(
+            3,
+            10,
+            0x409,
+            1,
+            &"\u{1F600}".repeat(16384),
+        )]);
+        assert!(crate::dump_table(&astral).is_err());
+        let mac = Name::new(vec![make_name_record(1, 0, 0, 1, &"a".repeat(65536))]);
+        assert!(crate::dump_table(&mac).is_err());
+        // the largest strings that fit still compile
+        let fits = Name::new(vec![make_name_record(3, 1, 0x409, 1, &"a".repeat(32767))]);
+        assert!(crate::dump_table(&fits).is_ok());
     }
 }
